@@ -10,7 +10,7 @@ for p in props:
     pid = p["id"]
     sp = os.path.join(V, "props", pid + ".json")
     m = meta["properties"].get(pid, {})
-    if os.path.exists(sp) and not m.get("not_applicable"):
+    if os.path.exists(sp) and pid in meta["properties"] and not m.get("not_applicable"):
         spec = json.load(open(sp))
         checks.append({
             "property_id": pid,
